@@ -639,19 +639,8 @@ func (i *InMemCollector) send(ctx context.Context, trace sendableTrace) {
 		return
 	}
 
-	if trace.RootSpan != nil {
-		rs := trace.RootSpan
-		if rs != nil {
-			if i.Config.GetAddCountsToRoot() {
-				rs.Data.Set(types.MetaSpanEventCount, int64(trace.SpanEventCount()))
-				rs.Data.Set(types.MetaSpanLinkCount, int64(trace.SpanLinkCount()))
-				rs.Data.Set(types.MetaSpanCount, int64(trace.SpanCount()))
-				rs.Data.Set(types.MetaEventCount, int64(trace.DescendantCount()))
-			} else if i.Config.GetAddSpanCountToRoot() {
-				rs.Data.Set(types.MetaSpanCount, int64(trace.DescendantCount()))
-			}
-		}
-	}
+	// The root span's counts are added by sendTraces when the spans are handed
+	// to the transmission, using the options in force at that time.
 
 	i.Metrics.Increment(trace.sendReason)
 	if config.IsLegacyAPIKey(trace.APIKey) {
